@@ -116,6 +116,28 @@ def make_h_scope(nlines):
             lines[e - 1] = _directive("block-end", style, tool, name)
         elif form in ("file", "file-bare"):
             lines[p - 1] = _directive(form, style, tool, name)
+        # optionally a SECOND directive that names another rule: it must change nothing
+        second = ctx.pick("second_directive", ("none", "next-line[other]-on-previous-line", "same-line[other]-appended", "block[other]-around-everything",
+                                               "file[other]-on-line-1"))
+        if second == "next-line[other]-on-previous-line" and p >= 2 and form in ("same-line", "same-line-bare", "none"):
+            if "thailint" in lines[p - 2] or "design-lint" in lines[p - 2]:
+                ctx.assume(False)
+            lines[p - 2] = _directive("next-line", style, tool, "nesting")
+        elif second == "same-line[other]-appended" and form in ("next-line", "block", "none"):
+            tgt = (p + 1 if form == "next-line" else p + 1) if form != "none" else p
+            if tgt <= n and "ignore" not in lines[tgt - 1]:
+                lines[tgt - 1] += "  " + _directive("same-line", style, tool, "nesting")
+        elif second == "block[other]-around-everything" and form in ("same-line", "next-line") and p >= 2 and p < n - 1:
+            if "ignore" in lines[0] or "ignore" in lines[n - 1]:
+                ctx.assume(False)
+            lines[0] = _directive("block-start", style, tool, "nesting")
+            lines[n - 1] = _directive("block-end", style, tool, "nesting")
+        elif second == "file[other]-on-line-1" and form in ("same-line", "next-line", "block") and p >= 2:
+            if "ignore" in lines[0]:
+                ctx.assume(False)
+            lines[0] = _directive("file", style, tool, "nesting")
+        elif second != "none":
+            ctx.assume(False)
         content = "\n".join(lines) + "\n"
         d = Path(tempfile.gettempdir()) / "c04-scope-project"
         parser = IgnoreDirectiveParser(d)
@@ -136,6 +158,7 @@ def make_h_scope(nlines):
         ctx.note("form", form)
         ctx.note("style", style)
         ctx.note("names", names)
+        ctx.note("second_directive", second)
         ctx.cover("ignored" if got else "kept")
         if form == "block":
             # the directive lines themselves (v == start or v == end) are not second-guessed
@@ -345,7 +368,7 @@ def obligations(tier):
         Ob(name="K2-directive-scope", engine="pathex", harness=make_h_scope(n),
            functions=["IgnoreDirectiveParser.should_ignore_violation", "_is_ignored_in_content", "_check_block_ignore/_process_block_line/_handle_block_end",
                       "_check_prev_line_ignore/_get_prev_line", "_check_current_line_ignore", "_has_file_ignore_in_content", "directive_markers.*"],
-           bounds="violation line symbolic in [1,%d]; forked: directive form (7), position(s) 1..%d, comment style (#, //), tool word (2), naming (own prefix / own full id upper-case / another rule)" % (n, n),
+           bounds="violation line symbolic in [1,%d]; forked: directive form (7), position(s) 1..%d, comment style (#, //), tool word (2), naming (own prefix / own full id upper-case / another rule), an optional second directive naming another rule (previous line, same line, enclosing block, file level)" % (n, n),
            timeout=400, workers=14, must_cover=("ignored", "kept")),
         Ob(name="K3-every-linter-honours-directives", engine="pathex", harness=h_every_linter,
            functions=["Orchestrator.lint_files", "every rule's check() and its use of the ignore parser"],
